@@ -56,7 +56,10 @@ def clean(items):
     """drop validation exits (branches that only abandon the layout)"""
     out = []
     for x in items:
-        if x[0] in ('ABORT', 'END'):
+        if x[0] in ('ABORT', 'END', 'RET'):
+            continue
+        if x[0] == 'CALL':
+            out += clean(x[2])
             continue
         if x[0] == 'I':
             a, b = clean(x[2]), clean(x[3])
